@@ -280,9 +280,15 @@ impl LanguageServer for Server {
     }
 
     fn did_close(&mut self, params: DidCloseTextDocumentParams) -> Self::NotifyResult {
+        #[cfg(feature = "verif")]
+        crate::verif::point("notify.begin");
         // the disk is the truth again
         let path = UrlExt::to_file_path(&params.text_document.uri);
+        #[cfg(feature = "verif")]
+        crate::verif::point("close.vfs_write.before");
         self.vfs.write().unwrap().remove_open_document(&path);
+        #[cfg(feature = "verif")]
+        crate::verif::point("notify.end");
         ControlFlow::Continue(())
     }
 
